@@ -286,6 +286,11 @@ def corpus(fam, quick):
         good = fam.wrap(xml_req(VAL)).encode() if fam.kind == 'xml' else fam.dump(fam.jreq(VAL))
         for cs in ('bogus', '', 'utf-16', 'ascii', 'utf-8; x=y', '"utf-8"', 'utf-8 ', 'idna', 'rot13', 'hex', 'undefined'):
             out.append(('charset=%s' % cs, {'CONTENT_TYPE': '%s; charset=%s' % (fam.ctype, cs)}, good))
+        # the parameter syntaxes of RFC 2231 / 5987 (extended notation, continuations), repeated and malformed parameters
+        for par in ("charset*=utf-8''utf-8", "charset*=bogus", "charset*=utf-8'en'utf-8", "charset*0=utf-8", "charset*0=ut; charset*1=f-8",
+                    "charset*0*=utf-8''ut; charset*1*=f-8", "charset=utf-8; charset=latin-1", "charset", "charset=", "CHARSET=UTF-8", "charset =utf-8",
+                    "charset='utf-8'", 'charset="utf-8', "charset*=''", "charset*='", "charset*=\xff''\xfe", "x=y; charset=utf-8", "=utf-8", "charset=utf-8;"):
+            out.append(('ctype-param %s' % par, {'CONTENT_TYPE': '%s; %s' % (fam.ctype, par)}, good))
         for ln in ('x', '', '-1', '1e3', ' 5', '99999999999999999999999'):
             out.append(('content-length=%r' % ln, {'CONTENT_LENGTH': ln}, good))
         for ct in ('', 'zz', 'multipart/related', 'multipart/related; boundary=x', 'text/xml;;;', ';'):
